@@ -102,6 +102,7 @@ type Frame struct {
 	panicV           interface{}
 	phitemps         []Value
 	callpos          token.Pos
+	curInstr         ssa.Instruction
 }
 
 // Program is the immutable, shared part (SSA + tables).
@@ -136,6 +137,7 @@ type Interp struct {
 	permuteMaps    bool
 	top            *Frame
 	ckptFS         map[string][]Value
+	race           *raceState
 }
 
 func (fr *Frame) get(key ssa.Value) Value {
@@ -283,6 +285,7 @@ const (
 func visitInstr(fr *Frame, instr ssa.Instruction) int {
 	it := fr.it
 	p := it.path
+	fr.curInstr = instr
 	p.steps++
 	if p.steps > p.lim.MaxSteps {
 		panic(abort{st: StBudget, msg: fmt.Sprintf("step budget %d exhausted in %s", p.lim.MaxSteps, fr.fn)})
